@@ -264,6 +264,19 @@ def _typed(tier, seed):
     badsig = bytes([sig_k0[0] ^ 1]) + sig_k0[1:]
     sigs = [sig_k0, sig_k1, sig_k0_f1, badsig, sig_k0 + b'\x00', sig_k0[:63], b'']
     keyset = [pks[0], pks[1], pks[0][:31], b'\x01' + b'\x00' * 31, b'\xee' * 32]
+    # string instructions on multi-byte UTF-8 text (character count != byte count), every index up to the byte length + 1
+    for text in ('\u00e9', 'h\u00e9llo', '\u65e5\u672c\u8a9e', 'a\U0001f600b', ''):
+        tb = text.encode('utf-8')
+        for idx in list(range(0, len(tb) + 2)) + [-1, 255, 256]:
+            ib = idx.to_bytes(2, 'big', signed=True) if not -128 <= idx < 128 else idx.to_bytes(1, 'big', signed=True)
+            yield (P(tb) + P(ib) + op('SPLIT_STR'), 0)
+            yield (P(tb) + P(ib) + op('SPLIT'), 0)
+        for other in ('\u00fc', 'z', ''):
+            yield (P(tb) + P(other.encode('utf-8')) + op('CONCAT_STR'), 0)
+            yield (P(other.encode('utf-8')) + P(tb) + op('CONCAT_STR'), 0)
+    for bad in (b'\xc3', b'\xff\xfe', b'\xe6\x97'):          # not UTF-8
+        yield (P(bad) + P(b'\x01') + op('SPLIT_STR'), 0)
+        yield (P(bad) + P(b'a') + op('CONCAT_STR'), 0)
     # CHECK_SIG / _VERIFY
     for name in ('CHECK_SIG', 'CHECK_SIG_VERIFY'):
         for s in sigs:
